@@ -272,21 +272,36 @@ def containers_and_float(tier):
             a2_ = np.empty((2, 1), dtype=object)
             a2_[0, 0], a2_[1, 0] = ents
             conts.append(a2_)
+    # arrays of a numeric dtype (their entries are numbers, not expressions): alone, in a tuple, as a call argument
+    for na in (np.array([1, 2, 3]), np.array([[1, 2], [3, 4]]), np.array([True, False]), np.array([1.5, -2.0])):
+        conts += [na, (x, na), p.Call(f, (na,))]
     for env in envs_:
         env.update(g=lambda v: (v, v), t=(7, 8))
 
     def arr_same(u, v):
-        return isinstance(u, np.ndarray) and u.shape == v.shape and u.dtype == v.dtype and all(type(u[i]) is type(v[i]) and u[i] == v[i] for i in np.ndindex(v.shape))
+        return isinstance(u, np.ndarray) and u.shape == v.shape and u.dtype == v.dtype and all(deep_same(u[i], v[i]) for i in np.ndindex(v.shape))
+
+    def deep_same(u, v):
+        if isinstance(v, np.ndarray):
+            return arr_same(u, v)
+        if isinstance(v, (list, tuple)):
+            return type(u) is type(v) and len(u) == len(v) and all(deep_same(a_, c_) for a_, c_ in zip(u, v))
+        return type(u) is type(v) and bool(u == v)
+
+    def run_rec(fn):
+        try:
+            return outcome.run(fn)
+        except RecursionError:
+            return ("exc", RecursionError, ("maximum recursion depth exceeded",))
     for e in conts:
         has_list = "[" in repr(e) or isinstance(e, np.ndarray)     # a list or an array somewhere: unhashable
         for env in envs_:
             want = outcome.run(lambda: ref(e, env))
             for name, fn in (("plain", lambda: EvaluationMapper(env)(e)), ("cached", lambda: CachedEvaluationMapper(env)(e)), ("evaluate", lambda: evaluate(e, env)),
                              ("evaluate_kw", lambda: evaluate_kw(e, **env))):
-                got = outcome.run(fn)
+                got = run_rec(fn)
                 b.case(("cont", repr(e)[:80], name, env["x"]), sample=dict(expr=repr(e)[:80], entry=name))
-                same = got[0] == want[0] and (got[0] == "exc" or (arr_same(got[1], want[1]) if isinstance(want[1], np.ndarray) else got[1] == want[1]
-                                                                    and type(got[1]) is type(want[1])))
+                same = got[0] == want[0] and (got[0] == "exc" or deep_same(got[1], want[1]))
                 if not same:
                     cause = " cause=unhashable-container-in-memoizing-evaluator" if (has_list and name != "plain" and got[0] == "exc" and issubclass(got[1], TypeError)) else ""
                     b.fail(Failure("containers-and-float", f"what=container{cause} entry={name} expr={e!r}"[:300], dict(kind="cont", expr=repr(e)[:200], entry=name),
@@ -377,6 +392,20 @@ def cse_once(tier):
                                expected=f"values {expect}, one evaluation per distinct wrapper child",
                                actual=f"values {vals}, child evaluations {calls}",
                                functions=["CSECachingMapperMixin.map_common_subexpression"]))
+    # many distinct wrappers on one evaluator (more than any plausible bound on a table), each occurring again after all the others
+    M = 3000 if tier == "thorough" else 700
+    ws = [p.CommonSubexpression(p.Call(p.Variable("g"), (p.Sum((x, i)),)), "w" if i % 3 else None) for i in range(M)]
+    big = [p.Sum(tuple(ws)), p.Sum(tuple(ws[::-1])), p.Product((ws[0], ws[M - 1], ws[M // 2]))]
+    for cls in (EvaluationMapper, CachedEvaluationMapper):
+        del calls[:]
+        m = cls({"x": 3, "g": g})
+        r = outcome.run(lambda: [m(e) for e in big])
+        b.case((cls.__name__, "many-wrappers", M), nontrivial=True, sample=dict(mapper=cls.__name__, wrappers=M))
+        want = [sum(2 * (3 + i) for i in range(M))] * 2 + [2 * 3 * 2 * (3 + M - 1) * 2 * (3 + M // 2)]
+        if r != ("val", want) or len(calls) != M:
+            b.fail(Failure("cse-once", f"mapper={cls.__name__} what=many-wrappers n={M} child_evaluations={len(calls)}", dict(kind="cse-once-large", mapper=cls.__name__, n=M),
+                           expected=f"{M} child evaluations", actual=f"{len(calls)} child evaluations, values {'right' if r == ('val', want) else 'wrong'}",
+                           functions=["CSECachingMapperMixin.map_common_subexpression"]))
     return b
 
 
